@@ -462,6 +462,7 @@ func (child *partitionConsumer) responseFeeder() {
 feederLoop:
 	for response := range child.feeder {
 		msgs, child.responseResult = child.parseResponse(response)
+		verifPoint("pc.parsed", child.partition, len(msgs), child.responseResult)
 
 		if child.responseResult == nil {
 			atomic.StoreInt32(&child.retries, 0)
@@ -475,8 +476,10 @@ feederLoop:
 				child.broker.acks.Done()
 				continue feederLoop
 			case child.messages <- msg:
+				verifPoint("pc.sent", child.partition, msg.Offset)
 				firstAttempt = true
 			case <-expiryTicker.C:
+				verifPoint("pc.tick", child.partition, firstAttempt)
 				if !firstAttempt {
 					child.responseResult = errTimedOut
 					child.broker.acks.Done()
@@ -488,10 +491,12 @@ feederLoop:
 						}
 						select {
 						case child.messages <- msg:
+							verifPoint("pc.sent", child.partition, msg.Offset)
 						case <-child.dying:
 							break remainingLoop
 						}
 					}
+					verifPoint("pc.resub", child.partition)
 					child.broker.input <- child
 					continue feederLoop
 				} else {
@@ -503,6 +508,7 @@ feederLoop:
 			}
 		}
 
+		verifPoint("pc.done", child.partition)
 		child.broker.acks.Done()
 	}
 
